@@ -610,6 +610,23 @@ def splice_starred_literals(tree, stats):
       n.args = out
 
 
+def bound_names(tree):
+  """Names bound by assignment at module level and at class level (`Cls.NAME`), any nesting of classes."""
+  out = []
+
+  def walk(body, prefix):
+    for st in body:
+      if isinstance(st, ast.ClassDef):
+        walk(st.body, prefix + st.name + '.')
+      elif isinstance(st, (ast.Assign, ast.AnnAssign, ast.AugAssign)):
+        for t in (st.targets if isinstance(st, ast.Assign) else [st.target]):
+          for x in ast.walk(t):
+            if isinstance(x, ast.Name):
+              out.append(prefix + x.id)
+  walk(tree.body, '')
+  return sorted(set(out))
+
+
 def import_table(tree):
   """{local name: [module, attribute or None]} of the absolute top-level imports of a module."""
   out = {}
@@ -735,6 +752,72 @@ def modern_syntax(tree, stats):
     if isinstance(node, ast.ExceptHandler) and any(isinstance(st, ast.AnnAssign) for st in node.body):
       node.body = [ast.copy_location(ast.Assign(targets=[st.target], value=st.value), st) if isinstance(st, ast.AnnAssign) and st.value is not None else st
                    for st in node.body if not (isinstance(st, ast.AnnAssign) and st.value is None)] or [ast.Pass()]
+  ast.fix_missing_locations(tree)
+
+
+def lower_walrus(tree, stats):
+  """`if (x := E) ...:`  ->  `x = E; if x ...:`  when the assignment expression is the first thing the test evaluates (same for an
+  assignment / expression / return statement whose value starts with it)."""
+  for node in ast.walk(tree):
+    for fld in ('body', 'orelse', 'finalbody'):
+      blk = getattr(node, fld, None)
+      if not (isinstance(blk, list) and blk and isinstance(blk[0], ast.stmt)):
+        continue
+      i = 0
+      while i < len(blk):
+        st = blk[i]
+        root = st.test if isinstance(st, ast.If) else getattr(st, 'value', None) if isinstance(st, (ast.Assign, ast.Expr, ast.Return)) else None
+        if root is not None:
+          ws = [n for n in ast.walk(root) if isinstance(n, ast.NamedExpr)]
+          if ws and isinstance(ws[0].target, ast.Name) and _first_evaluated(root, ws[0]):
+            w = ws[0]
+            asg = ast.copy_location(ast.Assign(targets=[ast.Name(id=w.target.id, ctx=ast.Store())], value=w.value), st)
+            ref = ast.copy_location(ast.Name(id=w.target.id, ctx=ast.Load()), w)
+            if root is w:
+              if isinstance(st, ast.If):
+                st.test = ref
+              else:
+                st.value = ref
+            else:
+              _replace_node(root, w, ref)
+            blk.insert(i, asg)
+            stats['modern'] = stats.get('modern', 0) + 1
+            i += 1
+            continue
+        i += 1
+  ast.fix_missing_locations(tree)
+
+
+def fstrings_to_percent(tree, stats):
+  """f'..{a:d}..{b!s}..'  ->  '..%d..%s..' % (a, b)   (simple fields only): one spelling of string building for the format parsers."""
+  class T(ast.NodeTransformer):
+    def visit_JoinedStr(self, node):
+      self.generic_visit(node)
+      fmt, args = '', []
+      for v in node.values:
+        if isinstance(v, ast.Constant) and isinstance(v.value, str):
+          fmt += v.value.replace('%', '%%')
+        elif isinstance(v, ast.FormattedValue):
+          spec = ''
+          if v.format_spec is not None:
+            if isinstance(v.format_spec, ast.Constant):
+              spec = str(v.format_spec.value)
+            elif isinstance(v.format_spec, ast.JoinedStr) and all(isinstance(x, ast.Constant) for x in v.format_spec.values):
+              spec = ''.join(str(x.value) for x in v.format_spec.values)
+            else:
+              return node
+          if spec not in ('', 'd') or v.conversion not in (-1, 115, 114):
+            return node
+          fmt += '%d' if spec == 'd' else ('%r' if v.conversion == 114 else '%s')
+          args.append(v.value)
+        else:
+          return node
+      if not args:
+        return ast.copy_location(ast.Constant(value=fmt.replace('%%', '%')), node)
+      right = args[0] if len(args) == 1 and not isinstance(args[0], ast.Tuple) else ast.Tuple(elts=args, ctx=ast.Load())
+      stats['modern'] = stats.get('modern', 0) + 1
+      return ast.copy_location(ast.BinOp(left=ast.Constant(value=fmt), op=ast.Mod(), right=right), node)
+  T().visit(tree)
   ast.fix_missing_locations(tree)
 
 
@@ -1552,7 +1635,33 @@ def _bind(helper, call, is_method):
       subst[nm] = v
     else:
       prologue.append(ast.Assign(targets=[ast.Name(id=nm, ctx=ast.Store())], value=copy.deepcopy(v), lineno=call.lineno, col_offset=call.col_offset))
+  if is_method and any(ast.unparse(x) == 'classmethod' for x in helper.decorator_list):
+    # the first parameter of a classmethod is the class the call went through
+    first = (a.posonlyargs + a.args)[0].arg
+    recv = call.func.value if isinstance(call.func, ast.Attribute) else None
+    if not isinstance(recv, ast.Name) or first in assigned:
+      return None
+    if recv.id != first:
+      subst[first] = ast.Attribute(value=ast.Name(id='self', ctx=ast.Load()), attr='__class__', ctx=ast.Load()) if recv.id == 'self' else ast.Name(id=recv.id, ctx=ast.Load())
   return subst, prologue
+
+
+def _tail_form_ok(body):
+  """Every return of the (copied) helper body sits directly in the body or in (nested) if/else branches of it."""
+  def ok(stmts):
+    for st in stmts:
+      if isinstance(st, ast.Return):
+        continue
+      if isinstance(st, ast.If):
+        if not ok(st.body) or not ok(st.orelse):
+          return False
+        continue
+      if isinstance(st, (ast.FunctionDef, ast.AsyncFunctionDef, ast.ClassDef)):
+        continue
+      if any(isinstance(x, ast.Return) for x in ast.walk(st)):
+        return False
+    return True
+  return ok(body)
 
 
 def inline_body(helper, call, is_method, kind, target, caller_locals, base_line=None):
@@ -1608,6 +1717,25 @@ def inline_body(helper, call, is_method, kind, target, caller_locals, base_line=
     out = prologue + body + (finish(None) if kind == 'assign' else ([ast.Return(value=None, **loc)] if kind == 'return' else []))
   elif tail_only and len(rets) == 1:
     out = prologue + body[:-1] + (finish(rets[0].value) if kind != 'return' else [ast.Return(value=rets[0].value, **loc)])
+  elif _tail_form_ok(body):
+    # loop-free helper with several returns: nested if/else whose tails assign the result (no jump needed), e.g.
+    #   if c: return A        ->   if c: x = A
+    #   rest; return B             else: rest; x = B
+    def tail(stmts):
+      out_ = []
+      for i_, st in enumerate(stmts):
+        if isinstance(st, ast.Return):
+          return out_ + finish(st.value if st.value is not None else (ast.Constant(value=None) if kind == 'assign' else None))
+        if isinstance(st, ast.If) and any(isinstance(x, ast.Return) for x in ast.walk(st)):
+          rest = stmts[i_ + 1:]
+          b_ = tail(list(st.body) + [copy.deepcopy(r_) for r_ in rest])
+          o_ = tail(list(st.orelse) + [copy.deepcopy(r_) for r_ in rest])
+          st.body = b_ or [ast.Pass(**loc)]
+          st.orelse = o_
+          return out_ + [st]
+        out_.append(st)
+      return out_ + (finish(ast.Constant(value=None)) if kind == 'assign' else [])
+    out = prologue + tail(body)
   else:
     rv = '__ret_%s' % helper.name.strip('_')
     done = '__done_%s' % helper.name.strip('_')
@@ -1729,6 +1857,20 @@ def _first_evaluated(root, target):
 def _hoistable(root, target):
   """Is `target` evaluated before any other impure sub-expression of root (other than the
   calls that contain it)?"""
+  # never out of a comprehension element / condition, a lambda body or a conditional branch: those run per iteration, later, or not at all
+  for n in ast.walk(root):
+    if n is target:
+      continue
+    if isinstance(n, (ast.ListComp, ast.SetComp, ast.DictComp, ast.GeneratorExp)):
+      first_iter = n.generators[0].iter
+      if any(x is target for x in ast.walk(n)) and not any(x is target for x in ast.walk(first_iter)):
+        return False
+    elif isinstance(n, ast.Lambda) and any(x is target for x in ast.walk(n.body)):
+      return False
+    elif isinstance(n, ast.IfExp) and (any(x is target for x in ast.walk(n.body)) or any(x is target for x in ast.walk(n.orelse))):
+      return False
+    elif isinstance(n, ast.BoolOp) and any(any(x is target for x in ast.walk(v)) for v in n.values[1:]):
+      return False
   containing = set()
   def mark(n):
     if n is target:
@@ -1882,7 +2024,7 @@ def inline_new_helpers(tree, rel, inventory, stats):
       q = prefix + d.name
       if q in known or not d.name.startswith('_') or d.name.startswith('__') and d.name.endswith('__'):
         continue
-      if d.decorator_list and not all(ast.unparse(x) in ('staticmethod',) for x in d.decorator_list):
+      if d.decorator_list and not all(ast.unparse(x) in ('staticmethod', 'classmethod') for x in d.decorator_list):
         continue
       if any(isinstance(n, (ast.Yield, ast.YieldFrom, ast.Await)) for n in own_nodes(d)):
         continue     # a generator/coroutine body does not run at the call
@@ -2075,6 +2217,8 @@ def normalize_module(tree, rel, stats=None):
     stats['log_error'] = repr(e)
   try:
     modern_syntax(tree, stats)
+    lower_walrus(tree, stats)
+    fstrings_to_percent(tree, stats)
   except Exception as e:
     stats['modern_error'] = repr(e)
   try:
@@ -2227,9 +2371,11 @@ def baseline_of_tree(trees):
         fn(n, rel, q + '.' + n.name)
   classes = {}
   imports = {}
+  constants = {}
   for rel, tree in trees.items():
     imports[rel] = import_table(tree)
+    constants[rel] = bound_names(tree)
     walk(tree.body, rel, '')
     for c in [x for x in ast.walk(tree) if isinstance(x, ast.ClassDef)]:
       classes[rel + '::' + c.name] = [[a, fp] for a, fp in class_attr_fps(c)]
-  return {'functions': functions, 'inventory': inventory, 'classes': classes, 'sources': sources, 'class_inventory': class_inventory, 'imports': imports}
+  return {'functions': functions, 'inventory': inventory, 'classes': classes, 'sources': sources, 'class_inventory': class_inventory, 'imports': imports, 'constants': constants}
